@@ -299,7 +299,7 @@ def replay(payload):
 
 def run(tier, seed):
     res = Result("C05")
-    res.functions = ["xeofs.preprocessing.preprocessor:Preprocessor._fit_algorithm/transform/inverse_transform_scores/inverse_transform_scores_unseen",
+    res.functions = ["xeofs.cross.base_model_cross_set:BaseModelCrossSet public methods (composition of preprocessor/PCA/whitener per field)", "xeofs.preprocessing.preprocessor:Preprocessor._fit_algorithm/transform/inverse_transform_scores/inverse_transform_scores_unseen",
                      "xeofs.preprocessing.list_processor:GenericListTransformer.*", "xeofs.preprocessing.scaler:Scaler.fit/transform",
                      "xeofs.preprocessing.dimension_renamer:DimensionRenamer.*", "xeofs.preprocessing.multi_index_converter:MultiIndexConverter.*",
                      "xeofs.preprocessing.stacker:Stacker.fit/transform/_stack/_unstack_to_dataarray/_reorder_dims", "xeofs.preprocessing.sanitizer:Sanitizer.*",
@@ -312,6 +312,8 @@ def run(tier, seed):
     res.trusted = ["CPython on proxies", "vf/sym/ldom.py structural proxies and facades", "z3 (path feasibility)"]
     agg = Agg(res, "C05")
     deductive(res, agg)
+    from vf.contracts import crosschain
+    crosschain.obligations(agg, ("transform", "predict"))      # cross-set public methods: every field through its own chain, in order
     agg.flush()
     run_bounded(res, tier, seed)
     return res
